@@ -147,10 +147,18 @@ CLAIMS = {
  "C10": dict(text="Proved for all record lists and all positions: parsing encAll rs is clean; a cut inside a record yields exactly "
              "the complete records before it with eof; a zero tail of any length m>=1 yields them with eof (m<28) or invalid "
              "(m>=28, crc32(0^20) != 0); openChunk truncates to the last complete record iff truncation is enabled and refuses "
-             "otherwise; lifted to openStore (truncate + new chunk at the cut, explicit events and files). Sweep: every cut "
+             "otherwise; lifted to openStore (truncate + new chunk at the cut, explicit events and files). System level (Props/C10Sys), "
+             "for every clean system reached by histories, clean restarts and crash recoveries and every reopening cfg: the newest chunk "
+             "cut at ANY position inside ANY record after its head (c10_sys_cut_newest[_reach]) or followed by / overwritten from a record "
+             "boundary with ANY number m>=1 of zero bytes (c10_sys_zero_tail_newest, c10_sys_zero_from_boundary): with truncation enabled open "
+             "succeeds, emits exactly sync*, trunc, sync, sync, create, write-head, cuts the file to the last complete record, starts a new "
+             "chunk there, recovers exactly the state and index of the directory cut at that record boundary (= the pre-restart state for "
+             "a zero tail) and leaves every other file's bytes alone; with truncation disabled it returns eof/invalid and leaves all bytes; a "
+             "cut inside the head record is the headless-chunk case (fix D3, example); the recovered store accepts the next record "
+             "(c10_sys_zero_tail_recovered_accepts_partial). Sweep: every cut "
              "position / zero tails at every boundary x both settings; oracle: exactly the complete prefix, files untouched "
              "when refused.",
-             technique="Lean 4 theorems about parseChunk/openChunk/openStore + exhaustive cut/zero-tail sweep with correspondence",
+             technique="Lean 4 theorems about parseChunk/openChunk/openStore, lifted to every reachable directory + exhaustive cut/zero-tail sweep with correspondence",
              ref="8 C10"),
  "C14": dict(text="Proved: after drop the store is gone, the lock is free, the worker is dead with an empty queue (the join loop "
              "terminates: explicit measure, and the model's fuel is sufficient for every reachable state), and any further "
